@@ -179,20 +179,21 @@ Theorem C16_gmt2sec_float_instances_partial :
 Proof. exact gmt_float_instances. Qed.
 Print Assumptions C16_gmt2sec_float_instances_partial.
 
-(* d/h/m/s inverses: for every int64 except -2^63 ... *)
-Theorem C16_dhms2sec_sec2dhms : forall n, MIN64 < n <= MAX64 -> dhms2sec (sec2dhms n) = Some n.
+(* d/h/m/s inverses: for EVERY int64 (incl. -2^63 since the repair of splitIntToDHMS) *)
+Theorem C16_dhms2sec_sec2dhms : forall n, MIN64 <= n <= MAX64 -> dhms2sec (sec2dhms n) = Some n.
 Proof. exact dhms_roundtrip. Qed.
 Print Assumptions C16_dhms2sec_sec2dhms.
 
-Theorem C16_hms2sec_sec2hms : forall n, MIN64 < n <= MAX64 -> hms2sec (sec2hms n) = Some n.
+Theorem C16_hms2sec_sec2hms : forall n, MIN64 <= n <= MAX64 -> hms2sec (sec2hms n) = Some n.
 Proof. exact hms_roundtrip. Qed.
 Print Assumptions C16_hms2sec_sec2hms.
 
-(* ... and refuted at exactly -2^63 (known finding dhms-roundtrip-minint64) *)
-Theorem C16_dhms_roundtrip_refuted_at_minint64 :
-  exists n, in64 n = true /\ dhms2sec (sec2dhms n) <> Some n /\ hms2sec (sec2hms n) <> Some n.
-Proof. exact dhms_refuted. Qed.
-Print Assumptions C16_dhms_roundtrip_refuted_at_minint64.
+(* the former witness -2^63 (finding dhms-roundtrip-minint64, repaired: the magnitude is split as uint64) as an instance,
+   with the texts it now prints *)
+Theorem C16_dhms_roundtrip_at_minint64 :
+  dhms_ok MIN64 = true /\ sec2dhms MIN64 = B "-106751991167300d15h30m08s" /\ sec2hms MIN64 = B "-2562047788015215:30:08".
+Proof. exact dhms_minint64. Qed.
+Print Assumptions C16_dhms_roundtrip_at_minint64.
 
 (* local time: for ANY well-formed transition table (offsets within 16 h, periods at least 64 h), Go's time.Date zone
    resolution inverts the wall-clock display at every instant whose wall-clock reading is unambiguous (outside overlaps) *)
